@@ -297,3 +297,15 @@ func VFCollisionRoute(s *HStore, key string) string {
 	}
 	return "slot-sibling/hint-found"
 }
+
+// VFBufferedRecords returns the number of records in the write buffers of a bucket.
+func VFBufferedRecords(s *HStore, bucket int) (n int) {
+	ds := s.buckets[bucket].datas
+	for i := 0; i <= ds.newHead; i++ {
+		dc := &ds.chunks[i]
+		dc.Lock()
+		n += len(dc.wbuf)
+		dc.Unlock()
+	}
+	return
+}
